@@ -468,6 +468,7 @@ ByValueItems(g) ==
 ByValueSeqs(g) ==
     {<<>>} \cup (IF ByValueMax >= 1 THEN {<<a>> : a \in ByValueItems(g)} ELSE {})
     \cup (IF ByValueMax >= 2 THEN {<<a, b>> : a \in ByValueItems(g), b \in ByValueItems(g)} ELSE {})
+    \cup (IF ByValueMax >= 3 THEN {<<a, b, c>> : a \in ByValueItems(g), b \in ByValueItems(g), c \in ByValueItems(g)} ELSE {})
 
 CachedItems(g) ==
     \* by-reference proposals in the committer's cache; order within a type is the hash-map order of the
